@@ -340,6 +340,14 @@ class World:
             return bool(self.vars[c["y"]].mesh.region in f.mesh.region)
         if op == "q_aligned":
             return bool(f.mesh.is_aligned(self.vars[c["y"]].mesh))
+        if op == "addnum":
+            return f + int(a["c"])
+        if op == "pow2":
+            return f**2
+        if op == "angle":
+            return f.angle(self.vars[c["y"]])
+        if op == "integratecum":
+            return f.integrate(dims[a["d"] - 1], cumulative=True)
         if op == "q_eq":
             return bool(f == self.vars[c["y"]])
         if op == "q_mean":
